@@ -21,7 +21,7 @@ RELEVANT FILES: {', '.join(p['anchors']['files'])}
 
 YOUR TASK: write ONE realistic change to the library source (not to its tests) that BREAKS this property while the library still compiles and the ENTIRE existing test suite still passes. It should be the kind of slip a maintainer could plausibly introduce (a refactoring mistake, a missed cache invalidation, a wrong index/key/sign/bound, an off-by-one at a boundary, a dropped notification, two sites that each look fine alone). It must need something specific to manifest — a particular multi-step sequence of operations, an unusual but legitimate input, a particular configuration — rather than being exposed at once by ordinary use. Keep the patch small (typically 1-15 changed lines). Do not add obviously artificial code (no `if x == 12345`), no random behaviour, no environment checks. {hint}
 
-Then write a demonstration: a small standalone script that uses only the public API, exits 0 on the unmodified library and exits 1 (printing what differs) with your change applied. Verify both directions yourself (use `git stash` / `git stash pop`, or `git diff > p.diff; git checkout -- .; ...; git apply p.diff`, rebuilding in between if .pyx changed), and run the full existing test suite with the change applied to confirm it still passes (report the pytest summary line).
+Then write a demonstration: a small standalone script that uses only the public API, exits 0 on the unmodified library and exits 1 (printing what differs) with your change applied. Verify both directions yourself (use `git diff > p.diff; git checkout -- .; ...; git apply p.diff`, rebuilding in between if .pyx changed; do NOT use `git stash` - the stash is shared with other worktrees), and run the full existing test suite with the change applied to confirm it still passes (report the pytest summary line).
 
 Deliverables (create the directory {wt}/OUT):
 - {wt}/OUT/patch.diff : `git diff` of the library change only (must apply with `git apply` at the worktree root on a clean checkout)
